@@ -319,8 +319,14 @@ class Part(object):
 
         # correct for anacrusis
         t0 = measures[0][0]  # start of the first measure
+        next_beat = 1 + self.beat_map(t0)
+        end_beat = self.beat_map(self.last_point.t)
+        if next_beat > end_beat and np.isclose(next_beat, end_beat, rtol=1e-9, atol=1e-9):
+            # one beat after t0 is the last time point: a rounding error in the sum
+            # must not push it out of the range of the beat map (nan, no correction)
+            next_beat = end_beat
         divs_per_beat = (
-            self.inv_beat_map(1 + self.beat_map(t0)) - t0
+            self.inv_beat_map(next_beat) - t0
         )  # find the divs per beat in the first measure
         # number of (notated or musical) beats per measure, matching the beat map
         beats = self.time_signature_map(t0)[2 if self._use_musical_beat else 0]
@@ -376,8 +382,14 @@ class Part(object):
         )
         # correct for anacrusis
         t0 = measures[0][0]  # start of the first measure
+        next_beat = 1 + self.beat_map(t0)
+        end_beat = self.beat_map(self.last_point.t)
+        if next_beat > end_beat and np.isclose(next_beat, end_beat, rtol=1e-9, atol=1e-9):
+            # one beat after t0 is the last time point: a rounding error in the sum
+            # must not push it out of the range of the beat map (nan, no correction)
+            next_beat = end_beat
         divs_per_beat = (
-            self.inv_beat_map(1 + self.beat_map(t0)) - t0
+            self.inv_beat_map(next_beat) - t0
         )  # find the divs per beat in the first measure
         # number of (notated or musical) beats per measure, matching the beat map
         beats = self.time_signature_map(t0)[2 if self._use_musical_beat else 0]
